@@ -612,6 +612,9 @@ func (x *Exec) frameKeys(st *State, fr *Frame, lp *loop, ls *LoopSpec) []string 
 		if strings.HasPrefix(k, "extern!") || allowed[k] {
 			continue
 		}
+		if strings.HasPrefix(k, "C%") && !mods["extern!"+k] {
+			continue // only cells of local variables are assigned: holds by the analysis that established that
+		}
 		ks = append(ks, k)
 	}
 	return ks
